@@ -207,6 +207,11 @@ def check_frame(case):
         want_cols = [[arr_list(c)[i] for i in exp] for c in cols]
         obs.LOOSE_MISSING[0] = True
         obs.expect_frame(r, want_labels, labels, want_cols, what, dtypes=[c.dtype for c in cols], name=case['name'])
+        # the class of the row axis (per depth for a hierarchy) is carried over
+        def _ax_classes(ax):
+            return [t.__name__ for t in ax.index_types.values] if ax.depth > 1 else [type(ax).__name__]
+        if _ax_classes(r.index) != _ax_classes(f.index):
+            raise Failure('index-class', '%s: index classes %s became %s' % (what, _ax_classes(f.index), _ax_classes(r.index)))
         keys_used = fn_keys(keycols) if what == 'sort_values' else use_keys
     elif what == 'sort_values_axis0':
         # columns ordered by the values of key rows; every row shares one dtype so row extraction keeps it
